@@ -287,6 +287,31 @@ profile(
     setf=lambda t: ("any_f", _s(t, 8)))
 
 
+# -- serialization with explicit arguments: the override mapper / camel-case flag are part of the cache key
+profile(
+    "serialize-override-mapper",
+    "class Part(Structure):\n    part_no: Integer\n    part_name: String\n    _serialization_mapper = {'part_no': 'no'}\n"
+    "class K(Structure):\n    a_val: Integer\n    b_val: String\n    main_part: Part\n    spare_parts: Map[String, Part]\n"
+    "    _serialization_mapper = mappers.TO_CAMELCASE\n",
+    "K",
+    val=lambda t: dict(a_val=_n(t), b_val=_s(t), main_part=S("Part", part_no=_n(t, 1), part_name=_s(t, 1)),
+                       spare_parts={_s(t, 2): S("Part", part_no=_n(t, 2), part_name=_s(t, 3))}),
+    bad=lambda kw, t: _corrupt(kw, [["a_val", "b_val"][t % 2]], [0.5]),
+    setf=lambda t: ("a_val", _n(t, 7)),
+    ser_kw={"mapper": {"a_val": "AA", "main_part._mapper": {"part_name": "NAME"}}}, tags=["ser-only"])
+
+profile(
+    "serialize-camel-flag",
+    "class Leg(Structure):\n    leg_len: Float\n    leg_tag: String\n"
+    "class K(Structure):\n    first_leg: Leg\n    all_legs: Tuple[Leg, Leg]\n    trip_name: String\n    stop_count: Integer\n",
+    "K",
+    val=lambda t: dict(first_leg=S("Leg", leg_len=t + 0.5, leg_tag=_s(t, 1)),
+                       all_legs=(S("Leg", leg_len=t + 1.5, leg_tag=_s(t, 2)), S("Leg", leg_len=t + 2.5, leg_tag=_s(t, 3))),
+                       trip_name=_s(t), stop_count=_n(t)),
+    bad=lambda kw, t: _corrupt(kw, [["stop_count", "trip_name"][t % 2]], {"q": 1}),
+    setf=lambda t: ("trip_name", _s(t, 7)),
+    ser_kw={"camel_case_convert": True}, tags=["ser-only"])
+
 
 def _conv(v):
     """('Inner', {...}) markers of harness/props/c20.py -> ('@', 'Inner', {...})"""
@@ -452,9 +477,11 @@ def build_op(p, ns, twin, spec, t):
     def ser(inst, api):
         if api == "method" and p["fast"]:
             return inst.serialize()
+        kw = p["ser_kw"]
         if api == "Serializer":
-            return Serializer(source=inst).serialize()
-        return serialize(inst, **p["ser_kw"])
+            ctor = {"mapper": kw["mapper"]} if kw.get("mapper") else {}
+            return Serializer(source=inst, **ctor).serialize(**{a: b for a, b in kw.items() if a != "mapper"})
+        return serialize(inst, **kw)
 
     if opkind == "construct":
         kw = p["val"](t)
@@ -546,6 +573,8 @@ def tasks(tier, rnd, chunk=450):
                 out.append((p["name"], pr, False, occ, extra2, rnd.randrange(1 << 30)))
             continue
         for pr, states in pairs(tier):
+            if quick and "ser-only" in p["tags"] and not any("serialize" in s_[0] for s_ in pr):
+                continue
             for cold in (True, False):
                 if ("c" if cold else "w") not in states:
                     continue
@@ -811,13 +840,15 @@ def symptom(dev, t):
         if validating and fields and all(f in p["racy_fields"] for f in fields) and all(x in own for x in leaves(obs[1])):
             f15 = fields[0]
         return "wrong-result", "result differs in %s: %r instead of %r" % (where, obs[1], seq[1]), f15
+    scratch_miss = obs[0] == "raise" and obs[1] in ("AttributeError", "KeyError") and (
+        validating or "'Structure' object has no attribute" in obs[3])
     if obs[0] == "raise" and seq[0] == "ok":
-        f15 = racy_field(obs[2], p) if validating and obs[1] in ("AttributeError", "KeyError") else None
+        f15 = racy_field(obs[2], p) if scratch_miss else None
         return "unexpected-exception:" + obs[1], "%s: %s (run alone it returns %r)" % (obs[1], obs[3], seq[1]), f15
     if obs[0] == "ok" and seq[0] == "raise":
         return "lost-exception", "returned %r; run alone it raises %s: %s" % (obs[1], seq[1], seq[3]), None
     if obs[0] == "raise" and seq[0] == "raise":
-        f15 = racy_field(obs[2], p) if validating and obs[1] in ("AttributeError", "KeyError") else None
+        f15 = racy_field(obs[2], p) if scratch_miss else None
         if obs[1] == seq[1]:
             if validating and racy_field(obs[2], p) is not None and racy_field(obs[2], p) == racy_field(seq[2], p):
                 f15 = racy_field(obs[2], p)         # another element slot of the same field is named
@@ -1007,20 +1038,58 @@ def profile_field_trees():
                     continue
                 seen.add((name, key))
                 out.append((p["name"], name, key, field_tree(f)))
+    return out + internal_field_trees()
+
+
+INTERNAL = "*typedpy*"
+
+
+def internal_field_trees():
+    """fields of typedpy's OWN Structure classes (FunctionCall, Serializer, Deserializer, ...): operations construct
+    instances of them internally (e.g. aggregating a mapper with FunctionCall entries builds FunctionCall objects), so
+    their class-level Field objects are shared by all threads too"""
+    from typedpy import Structure
+
+    def subs(c):
+        for x in c.__subclasses__():
+            yield x
+            yield from subs(x)
+    out = []
+    for c in sorted(set(subs(Structure)), key=lambda c: (c.__module__, c.__qualname__)):
+        if not (c.__module__ or "").startswith("typedpy."):
+            continue
+        try:
+            fields = c.get_all_fields_by_name()
+        except Exception:  # noqa
+            continue
+        for name, f in fields.items():
+            out.append((INTERNAL, "%s.%s" % (c.__name__, name), name, field_tree(f)))
     return out
 
 
 def set_racy(trees, racy_lists):
     """racy_lists[i]: names of the validators the model classifies racy inside trees[i]"""
     by = collections.defaultdict(dict)
+    internal = {}
     for (pname, fname, key, _), racy in zip(trees, racy_lists):
-        if racy:
-            by[pname][fname] = racy[0]
-            by[pname][key] = racy[0]
+        if not racy:
+            continue
+        if pname == INTERNAL:
+            internal[key] = (racy[0], fname)
+            continue
+        by[pname][fname] = racy[0]
+        by[pname][key] = racy[0]
     for p in PROFILES:
-        p["racy"] = by.get(p["name"], {})
+        p["racy"] = dict(by.get(p["name"], {}))
+        p["racy_internal"] = {}
+        for f, (validator, owner) in internal.items():
+            if f not in p["racy"]:
+                p["racy"][f] = validator
+                p["racy_internal"][f] = owner
         p["racy_fields"] = tuple(p["racy"].keys())
-    return {p["name"]: sorted(set(p["racy"].keys())) for p in PROFILES}
+    out = {p["name"]: sorted(set(by.get(p["name"], {}).keys())) for p in PROFILES}
+    out[INTERNAL] = sorted(v[1] for v in internal.values())
+    return out
 
 
 # ============================================================================ caches: logged accesses of real calls
